@@ -7,6 +7,7 @@ obligation is that the spelling as written gives the same token type and the sam
 Words that start with ARRAY are excluded (array types are a separate, case-sensitive notation: C09)."""
 from contracts.base import contract
 from contracts.lib import lexer_flags
+from contracts.lib import PARSE_PROPS
 
 WORD = r"[a-zA-Z_][a-zA-Z_0-9]*"
 
@@ -19,7 +20,7 @@ def keyword_like(v):
 class CapitalizeTokens:
     """a keyword token is reported in upper case in every lexer context; ID / LT / RT keep their text"""
     fn = "ddl_parser.DDLParser.capitalize_tokens"
-    props = ["C05"]
+    props = PARSE_PROPS
     cases = {"any-context": {}}
 
     def build(G, case):
@@ -33,7 +34,7 @@ class CapitalizeTokens:
 @contract
 class AfterColumnsTokensCase:
     fn = "ddl_parser.DDLParser.after_columns_tokens"
-    props = ["C05", "C11"]
+    props = PARSE_PROPS
     cases = {"any-context": {}}
 
     def build(G, case):
@@ -53,7 +54,7 @@ class AfterColumnsTokensCase:
 @contract
 class ProcessBodyTokensCase:
     fn = "ddl_parser.DDLParser.process_body_tokens"
-    props = ["C05"]
+    props = PARSE_PROPS
     cases = {"any-context": {}}
 
     def build(G, case):
@@ -73,7 +74,7 @@ class ProcessBodyTokensCase:
 @contract
 class IsColumnNameCase:
     fn = "ddl_parser.DDLParser.is_token_column_name"
-    props = ["C05", "C06"]
+    props = PARSE_PROPS
     cases = {"any-context": {}}
 
     def build(G, case):
@@ -90,7 +91,7 @@ class IsColumnNameCase:
 @contract
 class IsCreationNameCase:
     fn = "ddl_parser.DDLParser.is_creation_name"
-    props = ["C05", "C06"]
+    props = PARSE_PROPS
     cases = {"any-context": {}}
 
     def build(G, case):
